@@ -405,6 +405,172 @@ type (
 	Instance = graphs.Instance
 )
 
+// -------------------------------------------------------------- derived values
+//
+// A value computed FROM a container (a slice, a copy, a sorted list, the items
+// of a dict, a union ...) is a new value: mutating it must never change the
+// container it was computed from -- in particular not a frozen one.
+
+type Alias struct {
+	Node   int    `json:"node"`
+	Kind   string `json:"kind"`
+	Frozen bool   `json:"frozen"` // the original must be immutable (reachable from the globals / frozen before)
+	How    string `json:"how"`    // the expression (over x) or Go call that produced the derived value
+	Mut    string `json:"mut"`    // what was done to the derived value
+	Before []Val  `json:"before"`
+	After  []Val  `json:"after"`
+}
+
+var derivExprs = map[string][]string{
+	"list":  {"x[:]", "x[0:len(x)]", "x[1:]", "x[:-1]", "x[::1]", "list(x)", "x + []", "[] + x", "x * 1", "sorted(x, key=lambda e: 0)", "[e for e in x]", "list(reversed(x))"},
+	"dict":  {"dict(x)", "x.items()", "x.keys()", "x.values()", "x | {}", "{} | x", "dict(x.items())", "{k: v for k, v in x.items()}"},
+	"set":   {"set(x)", "x.union([])", "x | set()", "x & x", "x - set()", "x ^ set()", "list(x)", "sorted(x, key=lambda e: 0)"},
+	"tuple": {"list(x)", "x + ()", "x[:]", "[e for e in x]"},
+}
+
+type derivedMut struct {
+	name string
+	f    func(th *starlark.Thread, d starlark.Value)
+}
+
+func call(th *starlark.Thread, d starlark.Value, name string, args ...starlark.Value) {
+	if ha, ok := d.(starlark.HasAttrs); ok {
+		if m, _ := ha.Attr(name); m != nil {
+			starlark.Call(th, m, starlark.Tuple(args), nil)
+		}
+	}
+}
+
+var big = starlark.MakeInt(999)
+
+var derivedMuts = []derivedMut{
+	{"d[0] = 999", func(th *starlark.Thread, d starlark.Value) {
+		switch x := d.(type) {
+		case *starlark.List:
+			if x.Len() > 0 {
+				x.SetIndex(0, big)
+			}
+		case *starlark.Dict:
+			if ks := x.Keys(); len(ks) > 0 {
+				x.SetKey(ks[0], big)
+			}
+		case *starlark.Set:
+			x.Insert(big)
+		}
+	}},
+	{"d[-1] = 999", func(th *starlark.Thread, d starlark.Value) {
+		if x, ok := d.(*starlark.List); ok && x.Len() > 0 {
+			x.SetIndex(x.Len()-1, big)
+		}
+	}},
+	{"d.clear()", func(th *starlark.Thread, d starlark.Value) { call(th, d, "clear") }},
+	{"d.pop()", func(th *starlark.Thread, d starlark.Value) {
+		if _, ok := d.(*starlark.Dict); ok {
+			call(th, d, "popitem")
+		} else {
+			call(th, d, "pop")
+		}
+	}},
+	{"d.pop(0) / remove first", func(th *starlark.Thread, d starlark.Value) {
+		switch x := d.(type) {
+		case *starlark.List:
+			call(th, d, "pop", starlark.MakeInt(0))
+		case *starlark.Dict:
+			if ks := x.Keys(); len(ks) > 0 {
+				x.Delete(ks[0])
+			}
+		case *starlark.Set:
+			it := x.Iterate()
+			var k starlark.Value
+			ok := it.Next(&k)
+			it.Done()
+			if ok {
+				x.Delete(k)
+			}
+		}
+	}},
+	{"d.insert(0, 999) / add", func(th *starlark.Thread, d starlark.Value) {
+		switch d.(type) {
+		case *starlark.List:
+			call(th, d, "insert", starlark.MakeInt(0), big)
+		case *starlark.Dict:
+			call(th, d, "setdefault", big, big)
+		case *starlark.Set:
+			call(th, d, "add", big)
+		}
+	}},
+	{"d.append(999); d[0] = 998", func(th *starlark.Thread, d starlark.Value) {
+		if x, ok := d.(*starlark.List); ok {
+			x.Append(big)
+			x.SetIndex(0, starlark.MakeInt(998))
+		}
+	}},
+	{"Go Clear()", func(th *starlark.Thread, d starlark.Value) {
+		switch x := d.(type) {
+		case *starlark.List:
+			x.Clear()
+		case *starlark.Dict:
+			x.Clear()
+		case *starlark.Set:
+			x.Clear()
+		}
+	}},
+}
+
+var evalOpts = &syntax.FileOptions{Set: true}
+
+func deriveAll(in *Instance, id int, frozen bool, out *GraphOut) {
+	nd := in.D.Nodes[id]
+	v := in.Objs[id]
+	th := &starlark.Thread{Name: "derive"}
+	type deriv struct {
+		how string
+		f   func() starlark.Value
+	}
+	var ds []deriv
+	for _, e := range derivExprs[nd.Kind] {
+		e := e
+		ds = append(ds, deriv{e, func() starlark.Value {
+			r, err := starlark.EvalOptions(evalOpts, th, "derive", e, starlark.StringDict{"x": v})
+			if err != nil {
+				return nil
+			}
+			return r
+		}})
+	}
+	if l, ok := v.(*starlark.List); ok {
+		ds = append(ds, deriv{"Go x.Slice(0, n, 1)", func() starlark.Value { return l.Slice(0, l.Len(), 1) }})
+		if l.Len() > 0 {
+			ds = append(ds, deriv{"Go x.Slice(1, n, 1)", func() starlark.Value { return l.Slice(1, l.Len(), 1) }})
+			ds = append(ds, deriv{"Go x.Slice(0, n-1, 1)", func() starlark.Value { return l.Slice(0, l.Len()-1, 1) }})
+		}
+	}
+	for _, dv := range ds {
+		for _, m := range derivedMuts {
+			before := in.Contents(id)
+			d := dv.f()
+			if d == nil {
+				continue
+			}
+			switch d.(type) {
+			case *starlark.List, *starlark.Dict, *starlark.Set:
+			default:
+				continue
+			}
+			func() {
+				defer func() { recover() }()
+				m.f(th, d)
+			}()
+			out.Derived++
+			after := in.Contents(id)
+			if !graphs.EqVals(before, after) {
+				out.Alias = append(out.Alias, Alias{Node: id, Kind: nd.Kind, Frozen: frozen, How: dv.how, Mut: m.name, Before: before, After: after})
+				return // the original is damaged: stop here
+			}
+		}
+	}
+}
+
 // ----------------------------------------------------------------------- run
 
 type GraphOut struct {
@@ -424,6 +590,8 @@ type GraphOut struct {
 	Readers  int      `json:"readers"`
 	StormOps int      `json:"storm_ops"`
 	Storm    string   `json:"storm,omitempty"`
+	Derived  int      `json:"derived"`
+	Alias    []Alias  `json:"alias,omitempty"`
 	ReadViol []string `json:"read_viol,omitempty"`
 }
 
@@ -648,6 +816,17 @@ func runGraph(seed uint64, i int, maxProbes int) GraphOut {
 				out.Storm = fmt.Sprintf("node %d (%s) changed from %v to %v", id, d.Nodes[id].Kind, before[id], after[id])
 				break
 			}
+		}
+	}
+
+	// derived values never alias the container they were computed from
+	{
+		dv := graphs.Instantiate(d, src)
+		for _, nd := range d.Nodes {
+			if dv.Objs[nd.ID] == nil || derivExprs[nd.Kind] == nil {
+				continue
+			}
+			deriveAll(dv, nd.ID, reach[nd.ID] || nd.PreFrozen, &out)
 		}
 	}
 
